@@ -280,6 +280,10 @@ def replay(hexbytes, output, state):
     x86enum.quiet()
     ins = decode(hexbytes)
     print('instruction:', safe_str(ins))
+    if output == 'relift':
+        digs = [[str(a) for a in lift_faithful(ins)] for _ in range(4)]
+        for i, d in enumerate(digs): print('lifting #%d:' % (i + 1), d)
+        return 1 if any(d != digs[0] for d in digs[1:]) else 0
     affs = lift_faithful(ins)
     for a in affs: print('   ', a)
     fill = state.get('memfill', 0)
@@ -352,8 +356,22 @@ def _work(job):
         if ins.m.name not in names: continue
         ins.offset = OFFSET
         hx = binascii.hexlify(b).decode()
+        # the lifted semantics are a function of the instruction: lifting it again (the proof lifts a second time, two more follow) gives the same IR
+        dig1 = None
+        try:
+            dig1 = [str(a) for a in lift_faithful(ins)]
+        except Exception:
+            pass
         try:
             ab, res = check_instance(ins, budget=budget)
+            if dig1 is not None:
+                for k_ in (3, 4):
+                    dign = [str(a) for a in lift_faithful(ins)]
+                    if dign != dig1:
+                        kk = (ins.m.name, opsig(ab), 'relift', '')
+                        out['groups'].setdefault(kk, [0, hx, 'lifting #%d of the same instruction in this process gives other IR than lifting #1: %s' % (
+                            k_, [x for x in dign if x not in dig1][:2]), None])[0] += 1
+                        break
         except x86sem.Unsupported as u:
             out['unsup'][str(u)[:60]] += 1
             continue
@@ -418,6 +436,10 @@ def main(argv):
     for k, (cnt, hx, msg, w) in sorted(failing.items()):
         name, sig, o, case = k
         oid = 'C04:sem[%s]:%s:%s%s' % (name, sig, o, ('|' + case) if case else '')
+        if o == 'relift':
+            script = REPLAY % dict(verif=common.VERIF, repo=common.REPO, hexbytes=hx, output='relift', state=None)
+            run.ob(oid, FAILED, 'SMT-B', 'cpython', detail='%d instances, e.g. %s: %s' % (cnt, hx, msg), witness=run.write_replay(oid, {'obligation': oid, 'detail': msg}, script), confirmed=True, func=name)
+            continue
         if o in ('lift', 'illtyped'):
             run.ob(oid, FAILED, 'SMT-B', 'cpython', detail='%d instances, e.g. %s: %s' % (cnt, hx, msg),
                    witness=run.write_replay(oid, {'obligation': oid, 'bytes': hx, 'detail': msg, 'replay': 'checks.C11.replay(%r, "noraise", ...)' % hx}), confirmed=True, func=name)
